@@ -151,6 +151,16 @@ func exerciseEnvelope(env *gobl.Envelope, o *vh.Obs) {
 		o.Class("signed")
 		structured(o, "Verify(after sign)", env.Verify(signKey.Public()))
 	}
+	if env.Head != nil {
+		// nothing handed over is nothing added (and nothing to crash on)
+		env.Head.AddStamp(nil)
+		env.Head.AddLink(nil)
+		for _, st := range env.Head.Stamps {
+			if st == nil && !o.Failed() {
+				o.Failf("header:nil-stamp-stored", "AddStamp(nil) stored a nil entry in the header's stamps")
+			}
+		}
+	}
 	out, err := json.Marshal(env)
 	if err != nil {
 		o.Failf("marshal:envelope", "json.Marshal(envelope) failed: %v", err)
